@@ -20,7 +20,7 @@ func init() { register(&Spec{ID: "C04", Targets: allTargets, Run: runC04}) }
 
 func runC04(c *core.Ctx) {
 	runFixtures(c, "valid")
-	c.Explain("'For all strings' collapses to 'on every path the gate dominates the effect'. Decided from source on linux, windows and js/wasm builds, for every function of the module with a string or []string parameter (entry points = exported functions and methods): (R04.1) no value derived from a name parameter reaches a primitive sink — a Store/Transaction call made outside the Store/Transaction implementations, any stdlib os function, an insertion into the mount table — unless the parameter is known to satisfy ValidPath there (dominating ValidPath-true edge; success or ErrNotExist edge of a rejecting call that received the name unchanged; memo hit in a table whose every insertion key is valid; exit of a loop that returns on the first invalid element); (R04.2) no transformed value (path.Join/Dir/Clean, Trim*, slicing, concatenation) derived from a possibly-invalid name is passed as a path to a file-system interface or returned as the sub-path of a Mount implementation — passing the name unchanged is delegation and is the callee's obligation (A1); (R04.3) under the assumption 'this name is invalid' every reachable return of an FS method carries an ErrInvalid-class error (built from ErrInvalid, or the error of a rejecting call on the unchanged name, possibly wrapped), for each name of two-name operations independently; (R04.4) every construction of an ErrInvalid error in a function that has a name in scope is control-dependent on a ValidPath-false edge, a comparison of a name with a constant, or a relational test between two names — never on a test of the characters of a name; (R04.5) only package os imports path/filepath, no other package uses a constant separator other than \"/\" on names, and on targets whose separator is not '/' the OS mapping rejects names containing it. (R04.6) prefix tests between names in keyvalue and mount are on element boundaries. (R04.7) hackpadfs.ValidPath returns exactly io/fs.ValidPath of its argument. NOT claimed: 'state unchanged' beyond 'no sink executed'; foreign FS implementations (A1).")
+	c.Explain("'For all strings' collapses to 'on every path the gate dominates the effect'. Decided from source on linux, windows and js/wasm builds, for every function of the module with a string or []string parameter (entry points = exported functions and methods): (R04.1) no value derived from a name parameter reaches a primitive sink — a Store/Transaction call made outside the Store/Transaction implementations, any stdlib os function, an insertion into the mount table — unless the parameter is known to satisfy ValidPath there (dominating ValidPath-true edge; success or ErrNotExist edge of a rejecting call that received the name unchanged; memo hit in a table whose every insertion key is valid; exit of a loop that returns on the first invalid element); (R04.2) no transformed value (path.Join/Dir/Clean, Trim*, slicing, concatenation) derived from a possibly-invalid name is passed as a path to a file-system interface or returned as the sub-path of a Mount implementation — passing the name unchanged is delegation and is the callee's obligation (A1); (R04.3) under the assumption 'this name is invalid' every reachable return of an FS method carries an ErrInvalid-class error (built from ErrInvalid, or the error of a rejecting call on the unchanged name, possibly wrapped), for each name of two-name operations independently; (R04.4) every construction of an ErrInvalid error in a function that has a name in scope is control-dependent on a ValidPath-false edge, a comparison of a name with a constant, or a relational test between two names — never on a test of the characters of a name; (R04.5) only package os imports path/filepath, no other package uses a constant separator other than \"/\" on names, and on targets whose separator is not '/' the OS mapping rejects names containing it. (R04.6) prefix tests between names in keyvalue and mount are on element boundaries. (R04.7) hackpadfs.ValidPath returns exactly io/fs.ValidPath of its argument. (R04.8) = R18.6: a refusal leaves no transaction open; (R04.9) nothing looks for the substring \"..\" in a name. NOT claimed: 'state unchanged' beyond 'no sink executed'; foreign FS implementations (A1).")
 	c.Assume("A1: a method invoked through an io/fs.FS / hackpadfs.*FS interface value rejects names that are not ValidPath with an ErrInvalid-class error before any effect (proved here for every FS type of the module; io/fs contract for foreign ones)",
 		"A2: path.Dir/Base/Join/Clean of valid paths are valid; stdlib behaves as documented",
 		"A3: names returned by a directory listing are single valid path elements",
@@ -29,6 +29,8 @@ func runC04(c *core.Ctx) {
 	c.RuleDoc("R04.2", "no transformed possibly-invalid name handed to a file system / returned by Mount")
 	c.RuleDoc("R04.3", "invalid name => ErrInvalid-class error on every reachable return")
 	c.RuleDoc("R04.4", "ErrInvalid only under allowed guard kinds")
+	c.RuleDoc("R04.8", "no path of package keyvalue leaves a transaction open (= R18.6)")
+	c.RuleDoc("R04.9", "no substring test for \"..\" on a name")
 	c.RuleDoc("R04.7", "hackpadfs.ValidPath answers exactly what io/fs.ValidPath answers")
 	c.RuleDoc("R04.6", "no valid name is refused because it merely starts with another name (element-boundary prefix tests)")
 	c.RuleDoc("R04.5", "separator discipline")
@@ -45,6 +47,12 @@ func runC04(c *core.Ctx) {
 		// R04.6 (converse): a name relation that refuses names is tested on element boundaries: "log.1" is not below "log"
 		boundaryTests(c, p, "R04.6", "keyvalue", "mount", "")
 		r04PredicateIsTheStandardOne(c, p)
+		// R04.8 (= R18.6): a refusal of an invalid name must not leave a transaction open (the in-memory store stays locked:
+		// "changes nothing" includes not wedging the file system)
+		if txnI := ifaceOf(p, "keyvalue", "Transaction"); txnI != nil {
+			c.WithAlias(map[string]string{"R18.6": "R04.8"}, func() { r18Pairing(c, p, txnI) })
+		}
+		r04NoSubstringDotDot(c, p, "R04.9")
 	}
 	c.Floor("R04.1", 60)
 	c.Floor("R04.2", 2)
@@ -53,6 +61,8 @@ func runC04(c *core.Ctx) {
 	c.Floor("R04.5", 2)
 	c.Floor("R04.6", 2)
 	c.Floor("R04.7", 1)
+	c.Floor("R04.8", 4)
+	c.Floor("R04.9", 1)
 }
 
 func staticCallerCount(p *load.Program) map[*ssa.Function]int {
@@ -1113,4 +1123,37 @@ func r04PredicateIsTheStandardOne(c *core.Ctx, p *load.Program) {
 	}
 	c.Check(bad == "" && n > 0, "R04.7", "hackpadfs.ValidPath|is-io/fs.ValidPath", p.Pos(fn.Pos()), "every return is io/fs.ValidPath(path)",
 		fmt.Sprintf("hackpadfs.ValidPath returns at %s something other than io/fs.ValidPath of its argument: the predicate behind every gate of the module is narrower or wider than the io/fs one — names io/fs calls valid (a correctly encoded U+FFFD, say) fail with ErrInvalid in every file system, or invalid ones pass", bad))
+}
+
+// r04NoSubstringDotDot (R04.9 / R07.13): nothing in the module tests a name for the SUBSTRING "..": `notes..bak` and
+// `..hidden` are valid names (ValidPath looks at whole elements); a gate widened with strings.Contains(name, "..")
+// refuses them with ErrInvalid in one layer while the layer below accepts them.
+func r04NoSubstringDotDot(c *core.Ctx, p *load.Program, rule string) {
+	bad := ""
+	for _, rel := range []string{"", "mount", "keyvalue", "mem", "cache", "tar", "os"} {
+		for _, fn := range pkgFuncs(p, rel) {
+			ssax.Instrs(fn, func(ins ssa.Instruction) {
+				cl, ok := ins.(*ssa.Call)
+				if !ok || bad != "" {
+					return
+				}
+				callee := ssax.StaticCallee(cl)
+				if callee == nil || callee.Pkg == nil || callee.Pkg.Pkg.Path() != "strings" {
+					return
+				}
+				switch callee.Name() {
+				case "Contains", "Index", "Count", "LastIndex":
+				default:
+					return
+				}
+				for _, a := range cl.Call.Args {
+					if s, ok := ssax.ConstString(a); ok && strings.Contains(s, "..") && !strings.Contains(s, "/") {
+						bad = fname(fn) + " at " + p.Pos(cl.Pos())
+					}
+				}
+			})
+		}
+	}
+	c.Check(bad == "", rule, "module|no-substring-test-for-dot-dot", "-", "no strings.Contains/Index/Count with \"..\"",
+		fmt.Sprintf("%s looks for the substring \"..\" in a name: names such as notes..bak or ..hidden are valid (only a whole element \"..\" is not), so this layer refuses with ErrInvalid what the file system below accepts — a file written through another route cannot be opened here", bad))
 }
